@@ -607,7 +607,9 @@ class covariance_meta(_Exact):
     name = "covariance under gain, channel order and time unit"
     bounded_reason = ("unsupported: equivariance of the whole identification (SVD, QR, pseudo-inverse, eig, Welch estimates) under scaling, permutation and re-timing is a "
                       "relational statement about floating-point kernels; the scaling-law checker planned in DESIGN section 3 was not built")
-    bounded_bound = ("3-5 channels, 3 modes, 4096 samples of noise-driven response; FDD (per, cor), EFDD, FSDD, SSIcov (cov_mm, cov_R), SSIdat, pLSCF through SingleSetup; gains 2^-34, 2^-20, 2^20, 2^30 "
-                     "(exact, tolerance 1e-9), 3.7e-6, 4.2e5 (1e-5); sampling frequency x 2^-5, 2^6 (1e-9); one random channel permutation (1e-5); whole pole tables compared "
-                     "column by column as sets of (frequency, damping, shape), extracted shapes unit-normalised")
+    bounded_bound = ("3-5 channels, 3 modes, 4096 samples of noise-driven response; FDD, EFDD, FSDD, pLSCF (each with the periodogram and the correlogram estimator), SSIcov (cov_mm, cov_R), "
+                     "SSIdat through SingleSetup; FDD_MS, EFDD_MS (per, cor), SSIcov_MS, SSIdat_MS, pLSCF_MS (per, cor) through MultiSetup_PreGER with two setups sharing two references "
+                     "(gain 2^-20 / 2^20 and time unit only); single setup: gains 2^-34, 2^-20, 2^20, 2^30 (exact, tolerance 1e-9), 3.7e-6, 4.2e5 (1e-5); sampling "
+                     "frequency x 2^-5, 2^6 (1e-7; 1e-6 for the EFDD / FSDD decay fit); one random channel permutation and one random orthogonal mixing (1e-5); whole pole tables "
+                     "compared column by column as sets of (frequency, damping, shape), extracted shapes unit-normalised; a variant whose untransformed run never succeeds is an error")
     bounded_driver = {"driver": "c08_meta", "inputs": {"trials": 1, "trials_thorough": 6}}
